@@ -84,8 +84,16 @@ type Synth struct {
 	Entry
 }
 
+// the world after an edit (a policy bumped, a role or token edited, a policy or role deleted)
+type RWorld struct {
+	Pols  []RPol  `json:"pols"`
+	Roles []RRole `json:"roles"`
+	Toks  []RTok  `json:"toks"`
+}
+
 type RStep struct {
-	Tok    int    `json:"tok"` // index into Toks
+	W      int    `json:"w"`   // world the step runs in: 0 = Pols/Roles/Toks, k = Later[k-1]
+	Tok    int    `json:"tok"` // index into that world's Toks
 	Err    bool   `json:"err"`
 	Expect string `json:"expect"`
 }
@@ -99,6 +107,9 @@ type RCase struct {
 	Pols   []RPol   `json:"pols"`
 	Roles  []RRole  `json:"roles"`
 	Toks   []RTok   `json:"toks"`
+	Later  []RWorld `json:"later,omitempty"`
+	Allow  bool     `json:"default_allow"` // ACLDefaultPolicy allow instead of deny
+	Cache  int      `json:"cache"`         // size of each resolver cache (0 = 64)
 	Synth  []Synth  `json:"synth"`
 	Steps  []RStep  `json:"steps"`
 	Oracle string   `json:"oracle"`
@@ -107,6 +118,25 @@ type RCase struct {
 	Sig    *Sig     `json:"sig,omitempty"`
 	Shrunk *RCase   `json:"shrunk,omitempty"`
 	IsRes  bool     `json:"resolver"`
+}
+
+// the case seen from world w: a single-world case sharing names, datacenter, defaults and the
+// synthetic-policy table
+func (c *RCase) at(w int) *RCase {
+	d := *c
+	d.Later, d.Steps, d.Shrunk = nil, nil, nil
+	if w > 0 {
+		d.Pols, d.Roles, d.Toks = c.Later[w-1].Pols, c.Later[w-1].Roles, c.Later[w-1].Toks
+	}
+	return &d
+}
+
+func (c *RCase) worlds() []*RCase {
+	out := []*RCase{c.at(0)}
+	for i := range c.Later {
+		out = append(out, c.at(i+1))
+	}
+	return out
 }
 
 func dcName(i int) string  { return fmt.Sprintf("dc%d", i) }
@@ -220,9 +250,9 @@ func buildWorld(c *RCase) *rbackend {
 func newRResolver(c *RCase, b *rbackend) *consul.ACLResolver {
 	r, err := consul.NewACLResolver(&consul.ACLResolverConfig{
 		Config: consul.ACLResolverSettings{ACLsEnabled: true, Datacenter: dcName(c.DC), NodeName: "node1",
-			ACLPolicyTTL: 0, ACLTokenTTL: 0, ACLRoleTTL: 0, ACLDownPolicy: "extend-cache", ACLDefaultPolicy: "deny"},
+			ACLPolicyTTL: 0, ACLTokenTTL: 0, ACLRoleTTL: 0, ACLDownPolicy: "extend-cache", ACLDefaultPolicy: map[bool]string{false: "deny", true: "allow"}[c.Allow]},
 		Logger:      hclog.NewNullLogger(),
-		CacheConfig: &structs.ACLCachesConfig{Identities: 64, Policies: 64, ParsedPolicies: 64, Authorizers: 64, Roles: 64},
+		CacheConfig: &structs.ACLCachesConfig{Identities: csize(c), Policies: csize(c), ParsedPolicies: csize(c), Authorizers: csize(c), Roles: csize(c)},
 		Backend:     b,
 		Tokens:      new(token.Store),
 	})
@@ -230,6 +260,42 @@ func newRResolver(c *RCase, b *rbackend) *consul.ACLResolver {
 		panic(err)
 	}
 	return r
+}
+
+func csize(c *RCase) int {
+	if c.Cache == 0 {
+		return 64
+	}
+	return c.Cache
+}
+
+// moveTo replaces in the backend exactly the objects whose description differs between the two
+// worlds (the state store installs a new object for a written row and keeps every other pointer)
+func (b *rbackend) moveTo(from, to *RCase) {
+	nb := buildWorld(to)
+	same := func(x, y interface{}) bool { a, _ := json.Marshal(x); c, _ := json.Marshal(y); return string(a) == string(c) }
+	for i := range to.Pols {
+		for j := range from.Pols {
+			if to.Pols[i].ID == from.Pols[j].ID && same(to.Pols[i], from.Pols[j]) {
+				nb.pols[polID(to.Pols[i].ID)] = b.pols[polID(to.Pols[i].ID)]
+			}
+		}
+	}
+	for i := range to.Roles {
+		for j := range from.Roles {
+			if to.Roles[i].ID == from.Roles[j].ID && same(to.Roles[i], from.Roles[j]) {
+				nb.roles[roleID(to.Roles[i].ID)] = b.roles[roleID(to.Roles[i].ID)]
+			}
+		}
+	}
+	for i := range to.Toks {
+		for j := range from.Toks {
+			if to.Toks[i].ID == from.Toks[j].ID && same(to.Toks[i], from.Toks[j]) {
+				nb.toks[secretOf(to.Toks[i].ID)] = b.toks[secretOf(to.Toks[i].ID)]
+			}
+		}
+	}
+	b.pols, b.roles, b.toks = nb.pols, nb.roles, nb.toks
 }
 
 func observe1(a acl.Authorizer, qs []query) string {
@@ -360,18 +426,25 @@ func (c *RCase) prepare() {
 		c.NamesX = append(c.NamesX, hex.EncodeToString([]byte(n)))
 	}
 	c.IsRes = true
-	// content hashes: structs.ACLPolicy.SetHash covers name (= ID here), rules and datacenters
+	// content hashes: the model's number stands for the real ACLPolicy.Hash
 	seen := map[string]int{}
-	for i := range c.Pols {
-		e := &c.Pols[i]
-		e.HCL = render(e.Pol)
-		k := fmt.Sprintf("%d|%s|%v", e.ID, e.HCL, e.DCs)
-		if _, ok := seen[k]; !ok {
-			seen[k] = len(seen) + 1
+	prep := func(pols []RPol) {
+		for i := range pols {
+			e := &pols[i]
+			e.HCL = render(e.Pol)
+			sp := &structs.ACLPolicy{ID: polID(e.ID), Name: fmt.Sprintf("pol-%d", e.ID), Rules: e.HCL, Datacenters: dcNames(e.DCs)}
+			k := fmt.Sprintf("%x", sp.SetHash(true))
+			if _, ok := seen[k]; !ok {
+				seen[k] = len(seen) + 1
+			}
+			e.Hash = seen[k]
+			_, err := acl.NewPolicyFromSource(e.HCL, &acl.Config{WarnOnDuplicateKey: true}, nil)
+			e.Ok = err == nil || (len(err.Error()) >= 8 && err.Error()[:8] == "Invalid ")
 		}
-		e.Hash = seen[k]
-		_, err := acl.NewPolicyFromSource(e.HCL, &acl.Config{WarnOnDuplicateKey: true}, nil)
-		e.Ok = err == nil || (len(err.Error()) >= 8 && err.Error()[:8] == "Invalid ")
+	}
+	prep(c.Pols)
+	for i := range c.Later {
+		prep(c.Later[i].Pols)
 	}
 }
 
@@ -380,27 +453,29 @@ func runR(c *RCase) {
 	qs := queries(c.Names)
 	ids := map[string]int{}
 	c.Synth = nil
-	// every identity of the world gets its synthetic policy recorded (the model's external table)
-	for _, t := range c.Toks {
-		for _, s := range t.SIs {
-			synthFor(c, "svc", s.Name, ids)
+	// every identity of every world gets its synthetic policy recorded (the model's external table)
+	for _, w := range c.worlds() {
+		for _, t := range w.Toks {
+			for _, s := range t.SIs {
+				synthFor(c, "svc", s.Name, ids)
+			}
+			for _, n := range t.NIs {
+				synthFor(c, "node", n.Name, ids)
+			}
+			for _, tp := range t.TPs {
+				synthFor(c, fmt.Sprintf("tp%d", tp.Tmpl), tpName(tp), ids)
+			}
 		}
-		for _, n := range t.NIs {
-			synthFor(c, "node", n.Name, ids)
-		}
-		for _, tp := range t.TPs {
-			synthFor(c, fmt.Sprintf("tp%d", tp.Tmpl), tpName(tp), ids)
-		}
-	}
-	for _, r := range c.Roles {
-		for _, s := range r.SIs {
-			synthFor(c, "svc", s.Name, ids)
-		}
-		for _, n := range r.NIs {
-			synthFor(c, "node", n.Name, ids)
-		}
-		for _, tp := range r.TPs {
-			synthFor(c, fmt.Sprintf("tp%d", tp.Tmpl), tpName(tp), ids)
+		for _, r := range w.Roles {
+			for _, s := range r.SIs {
+				synthFor(c, "svc", s.Name, ids)
+			}
+			for _, n := range r.NIs {
+				synthFor(c, "node", n.Name, ids)
+			}
+			for _, tp := range r.TPs {
+				synthFor(c, fmt.Sprintf("tp%d", tp.Tmpl), tpName(tp), ids)
+			}
 		}
 	}
 	sort.SliceStable(c.Synth, func(i, j int) bool {
@@ -421,7 +496,7 @@ func runR(c *RCase) {
 		}
 		c.Kinds = append(c.Kinds, kind)
 		s := &Sig{Kind: kind, Token: si}
-		tok := c.Toks[c.Steps[si].Tok]
+		tok := c.at(c.Steps[si].W).Toks[c.Steps[si].Tok]
 		var msg string
 		if i >= 0 {
 			s.Method, s.Name = describe(qs, i)
@@ -438,12 +513,24 @@ func runR(c *RCase) {
 		c.Oracle, c.Sig = msg, s
 	}
 
-	b := buildWorld(c)
+	cw := c.at(0)
+	b := buildWorld(cw)
 	r := newRResolver(c, b)
 	defer r.Close()
+	curW := 0
+	chain := 1 // which third of the reference vector: chain with DenyAll (1) or AllowAll (2)
+	if c.Allow {
+		chain = 2
+	}
 	for si := range c.Steps {
 		st := &c.Steps[si]
-		tok := &c.Toks[st.Tok]
+		if st.W != curW {
+			// the store was written between the two resolutions
+			nw := c.at(st.W)
+			b.moveTo(cw, nw)
+			cw, curW = nw, st.W
+		}
+		tok := &cw.Toks[st.Tok]
 		res, err := r.ResolveToken(secretOf(tok.ID))
 		st.Err, st.Expect = err != nil, ""
 		if err != nil {
@@ -453,13 +540,13 @@ func runR(c *RCase) {
 		st.Expect = observe1(res.Authorizer, qs)
 
 		// the backend's objects are untouched
-		pristine := buildWorld(c)
+		pristine := buildWorld(cw)
 		if !reflect.DeepEqual(pristine.roles, b.roles) || !reflect.DeepEqual(pristine.toks, b.toks) || !reflect.DeepEqual(pristine.pols, b.pols) {
 			fail("backend-object-mutated", si, -1, "", "")
 		}
 
 		// the same token alone, fresh resolver, fresh objects
-		fr := newRResolver(c, buildWorld(c))
+		fr := newRResolver(cw, buildWorld(cw))
 		fres, ferr := fr.ResolveToken(secretOf(tok.ID))
 		if ferr != nil {
 			fail("history-dependence-error", si, -1, "", "")
@@ -472,37 +559,52 @@ func runR(c *RCase) {
 		fr.Close()
 
 		// the documented rule over the union of what the token holds and inherits
-		full := newRef(c.referencePols(tok, ids)).observe(qs)
-		want := full[len(qs) : 2*len(qs)] // chain with the default policy "deny"
+		full := newRef(cw.referencePols(tok, ids)).observe(qs)
+		want := full[chain*len(qs) : (chain+1)*len(qs)]
 		if d := firstDiff(st.Expect, want); d >= 0 {
 			kind := "identity-semantics"
-			if c.unscopedSubsumes(st.Tok, qs, want) {
+			if cw.unscopedSubsumes(st.Tok, qs, want) {
 				kind = "service-identity-scope-narrowed"
-			} else if c.templatedMergedAgrees(st.Tok, qs, want) {
+			} else if cw.templatedMergedAgrees(st.Tok, qs, want) {
 				kind = "templated-policy-scope-dropped"
 			}
 			fail(kind, si, d, st.Expect, want)
 		}
 
-		// role links in the other order
-		if len(tok.Roles) > 1 {
-			c2 := cloneR(c)
-			t2 := &c2.Toks[st.Tok]
-			t2.Roles = reversed(t2.Roles)
-			r2 := newRResolver(c2, buildWorld(c2))
-			res2, err2 := r2.ResolveToken(secretOf(tok.ID))
-			if err2 != nil {
-				fail("role-order-dependence", si, -1, "", "")
-			} else if d := firstDiff(observe1(res2.Authorizer, qs), st.Expect); d >= 0 {
-				kind := "role-order-dependence"
-				if c.templatedMergedAgrees(st.Tok, qs, want) {
-					kind = "templated-policy-scope-dropped"
+		// role links in every other order
+		if len(tok.Roles) > 1 && len(tok.Roles) <= 3 {
+			for _, perm := range permutations(tok.Roles)[1:] {
+				c2 := cloneR(cw)
+				c2.Toks[st.Tok].Roles = perm
+				r2 := newRResolver(c2, buildWorld(c2))
+				res2, err2 := r2.ResolveToken(secretOf(tok.ID))
+				if err2 != nil {
+					fail("role-order-dependence", si, -1, "", "")
+				} else if got := observe1(res2.Authorizer, qs); firstDiff(got, st.Expect) >= 0 {
+					kind := "role-order-dependence"
+					if cw.templatedMergedAgrees(st.Tok, qs, want) {
+						kind = "templated-policy-scope-dropped"
+					}
+					fail(kind, si, firstDiff(got, st.Expect), got, st.Expect)
 				}
-				fail(kind, si, d, observe1(res2.Authorizer, qs), st.Expect)
+				r2.Close()
 			}
-			r2.Close()
 		}
 	}
+}
+
+func permutations(xs []int) [][]int {
+	if len(xs) <= 1 {
+		return [][]int{append([]int{}, xs...)}
+	}
+	var out [][]int
+	for i := range xs {
+		rest := append(append([]int{}, xs[:i]...), xs[i+1:]...)
+		for _, p := range permutations(rest) {
+			out = append(out, append([]int{xs[i]}, p...))
+		}
+	}
+	return out
 }
 
 // Does the deviation from the documented union disappear when, for every service name for which
@@ -620,11 +722,9 @@ func (c *RCase) templatedMergedAgrees(ti int, qs []query, want string) bool {
 			}
 		}
 	}
-	for _, rev := range []bool{false, true} {
+	for _, perm := range permutations(d.Toks[ti].Roles) {
 		e := cloneR(d)
-		if rev {
-			e.Toks[ti].Roles = reversed(e.Toks[ti].Roles)
-		}
+		e.Toks[ti].Roles = perm
 		r := newRResolver(e, buildWorld(e))
 		res, err := r.ResolveToken(secretOf(e.Toks[ti].ID))
 		ok := err == nil && observe1(res.Authorizer, qs) == want
@@ -655,6 +755,38 @@ func shrinkR(c *RCase) *RCase {
 	cur.Steps = cur.Steps[:c.Sig.Token+1]
 	if !still(cur) {
 		return cloneR(c)
+	}
+	if len(cur.Later) > 0 {
+		// several worlds: drop steps, then keep only the worlds still in use
+		for i := 0; i < len(cur.Steps)-1; i++ {
+			d := cloneR(cur)
+			d.Steps = append(d.Steps[:i:i], d.Steps[i+1:]...)
+			if still(d) {
+				cur = d
+				i--
+			}
+		}
+		first := cur.Steps[0].W
+		oneWorld := true
+		for _, st := range cur.Steps {
+			if st.W != first {
+				oneWorld = false
+			}
+		}
+		if !oneWorld {
+			still(cur)
+			return cur
+		}
+		d := cloneR(cur.at(first))
+		d.Steps = append([]RStep{}, cur.Steps...)
+		for i := range d.Steps {
+			d.Steps[i].W = 0
+		}
+		if !still(d) {
+			still(cur)
+			return cur
+		}
+		cur = d
 	}
 	try := func(mut func(d *RCase) bool) bool {
 		d := cloneR(cur)
@@ -845,7 +977,7 @@ func (g *gen) subset(n, max int) []int {
 }
 
 func (g *gen) resolverCase() *RCase {
-	c := &RCase{Stream: "resolver", DC: 2, IsRes: true}
+	c := &RCase{Stream: "resolver", DC: g.pick([]int{2, 2, 2, 1, 3}), IsRes: true, Allow: g.r.Intn(4) == 0, Cache: g.pick([]int{0, 0, 2})}
 	c.Names = append(append([]string{}, queryNames...), "a-sidecar-proxy", "ab-sidecar-proxy")
 	np := 1 + g.r.Intn(3)
 	for i := 0; i < np; i++ {
@@ -894,6 +1026,42 @@ func (g *gen) resolverCase() *RCase {
 	if directed {
 		// the several-role token first, then the single-role one
 		c.Steps[0].Tok, c.Steps[1].Tok = 0, 1
+	}
+	// the store is written between resolutions in half of the cases
+	if g.r.Intn(2) == 0 {
+		cur := c.at(0)
+		for k := 1 + g.r.Intn(2); k > 0; k-- {
+			nx := cloneR(cur)
+			switch g.r.Intn(6) {
+			case 0: // a policy gets new rules
+				i := g.r.Intn(len(nx.Pols))
+				nx.Pols[i].Pol, nx.Pols[i].Idx = g.policy(false, []int{KService, KNode, KKey}), nx.Pols[i].Idx+1
+			case 1: // a policy changes its datacenter scope
+				i := g.r.Intn(len(nx.Pols))
+				nx.Pols[i].DCs, nx.Pols[i].Idx = g.dcs(), nx.Pols[i].Idx+1
+			case 2: // a role gains or loses identities
+				i := g.r.Intn(len(nx.Roles))
+				nx.Roles[i].SIs, nx.Roles[i].TPs = g.sis(2), g.tps(1)
+			case 3: // a role's policy links change
+				i := g.r.Intn(len(nx.Roles))
+				nx.Roles[i].Pols = g.subset(len(nx.Pols), 2)
+			case 4: // a token is relinked
+				i := g.r.Intn(len(nx.Toks))
+				nx.Toks[i].Roles, nx.Toks[i].Pols = g.subset(len(nx.Roles), 3), g.subset(len(nx.Pols), 2)
+			case 5: // a linked policy or role is deleted (dangling links are skipped by the resolver)
+				if g.r.Intn(2) == 0 && len(nx.Pols) > 1 {
+					nx.Pols = nx.Pols[1:]
+				} else if len(nx.Roles) > 1 {
+					nx.Roles = nx.Roles[:len(nx.Roles)-1]
+				}
+			}
+			c.Later = append(c.Later, RWorld{Pols: nx.Pols, Roles: nx.Roles, Toks: nx.Toks})
+			cur = nx
+		}
+		// steps visit the worlds in order
+		for i := range c.Steps {
+			c.Steps[i].W = i * (len(c.Later) + 1) / len(c.Steps)
+		}
 	}
 	return c
 }
